@@ -731,7 +731,8 @@ partial def parseCToks : List String → CallbackEmit.CToks × List String
 def cbEmitAnswer (args : List String) : String :=
   let body := (parseCToks args).1
   let sh := fun (e : CallbackEmit.Emitted) => match e with | .pasted => "pasted" | .closureCall => "closure"
-  s!"fixed={sh (CallbackEmit.emitFixed body)} found={sh (CallbackEmit.emitFound body)}"
+  let vd := match CallbackEmit.headFixed body with | .accepted => "accepted" | .refused => "refused"
+  s!"fixed={sh (CallbackEmit.emitFixed body)} found={sh (CallbackEmit.emitFound body)} verdict={vd}"
 
 /-- "TYSUBST <entry> ; <entry> ... # <field> ; <field> ..." with an entry `-` (no item) or a type in prefix notation -/
 def tysubstAnswer (args : List String) : String :=
